@@ -50,7 +50,7 @@ func ruleSyntaxErrors(c *Ctx) *RuleResult {
 		return t, fieldName(t, fld), true
 	}
 	isLexOrParser := func(t types.Type) bool {
-		return types.Identical(t, c.A.LexerT) || types.Identical(t, c.A.ParserT)
+		return inFam(c.A.LexerFam, t) || inFam(c.A.ParserFam, t)
 	}
 	var classify func(v ssa.Value, fn *ssa.Function, what string, depth int) string
 	classify = func(v ssa.Value, fn *ssa.Function, what string, depth int) string {
@@ -102,11 +102,11 @@ func ruleSyntaxErrors(c *Ctx) *RuleResult {
 				}
 			}
 			if bo, ok := v.(*ssa.BinOp); ok && bo.Op == token.SUB {
-				if t, name, ok := fieldOf(bo.X); ok && types.Identical(t, c.A.LexerT) && name == "currentPos" {
+				if t, name, ok := fieldOf(bo.X); ok && inFam(c.A.LexerFam, t) && name == "currentPos" {
 					if k, ok := constInt(bo.Y); ok && k == 1 {
 						return "currentPos-1"
 					}
-					if t2, name2, ok := fieldOf(bo.Y); ok && types.Identical(t2, c.A.LexerT) && name2 == "lastWidth" {
+					if t2, name2, ok := fieldOf(bo.Y); ok && inFam(c.A.LexerFam, t2) && name2 == "lastWidth" {
 						return "currentPos-lastWidth"
 					}
 				}
@@ -186,10 +186,43 @@ func ruleSyntaxErrors(c *Ctx) *RuleResult {
 				break
 			}
 			if st, isSt := in.(*ssa.Store); isSt {
-				if fa, isFA := st.Addr.(*ssa.FieldAddr); isFA && fa.X == x.fn.Params[0] && fieldName(fa.X.Type(), fa.Field) == x.field {
+				// recv.expression = param, possibly through embedded structs
+				rooted := func(v ssa.Value) bool {
+					for {
+						if v == ssa.Value(x.fn.Params[0]) {
+							return true
+						}
+						fa, isFA := v.(*ssa.FieldAddr)
+						if !isFA || !isEmbeddedField(fa) {
+							return false
+						}
+						v = fa.X
+					}
+				}
+				if fa, isFA := st.Addr.(*ssa.FieldAddr); isFA && rooted(fa.X) && fieldName(fa.X.Type(), fa.Field) == x.field {
 					if p, isP := st.Val.(*ssa.Parameter); isP && p == x.fn.Params[1] {
 						ok = true
 						pos = c.pos(st.Pos())
+					}
+				}
+				// recv.embedded = T{expression: param, ...}: a whole-struct store of a
+				// literal whose expression field is the parameter
+				if fa, isFA := st.Addr.(*ssa.FieldAddr); isFA && rooted(fa) {
+					if ld, isLd := st.Val.(*ssa.UnOp); isLd && ld.Op == token.MUL {
+						if al, isAl := ld.X.(*ssa.Alloc); isAl {
+							for _, rf := range *al.Referrers() {
+								fa2, isFA2 := rf.(*ssa.FieldAddr)
+								if !isFA2 || fieldName(fa2.X.Type(), fa2.Field) != x.field {
+									continue
+								}
+								for _, rr := range *fa2.Referrers() {
+									if st2, isSt2 := rr.(*ssa.Store); isSt2 && st2.Addr == fa2 && st2.Val == ssa.Value(x.fn.Params[1]) {
+										ok = true
+										pos = c.pos(st.Pos())
+									}
+								}
+							}
+						}
 					}
 				}
 			}
@@ -256,47 +289,158 @@ func ruleSkeleton(c *Ctx) *RuleResult {
 func ruleParserReset(c *Ctx) *RuleResult {
 	r := &RuleResult{Doc: "every Parser field read by a method reachable from Parse is stored by Parse before the first call that reads it; the Lexer used is a fresh object (or every Lexer field read by tokenize is reset first)", Floor: 4}
 	checkReset := func(entry *ssa.Function, T *types.Named, label string) {
-		st := T.Underlying().(*types.Struct)
-		// methods of T
+		fam := structFamily(T)
+		// fields are named by their path from T through embedded structs ("1.0")
 		isRecv := func(f *ssa.Function) bool {
-			if f == nil || f.Signature.Recv() == nil {
-				return false
-			}
-			pt, ok := f.Signature.Recv().Type().(*types.Pointer)
-			return ok && types.Identical(pt.Elem(), T)
+			return f != nil && f.Signature.Recv() != nil && f.Blocks != nil && len(f.Params) > 0 && inFam(fam, f.Signature.Recv().Type())
 		}
-		direct := map[*ssa.Function]map[int]bool{}
-		callees := map[*ssa.Function][]*ssa.Function{}
-		for _, fn := range allFuncs(c.SLib) {
-			if !isRecv(fn) {
-				continue
+		embedded := func(t types.Type) *types.Named {
+			n, ok := t.(*types.Named)
+			if ok && fam[n] {
+				return n
 			}
-			direct[fn] = map[int]bool{}
+			return nil
+		}
+		var leaves func(n *types.Named, prefix string) []string
+		leaves = func(n *types.Named, prefix string) []string {
+			var out []string
+			st := n.Underlying().(*types.Struct)
+			for i := 0; i < st.NumFields(); i++ {
+				pth := prefix + fmt.Sprint(i)
+				if e := embedded(st.Field(i).Type()); e != nil && st.Field(i).Embedded() {
+					out = append(out, leaves(e, pth+".")...)
+				} else {
+					out = append(out, pth)
+				}
+			}
+			return out
+		}
+		leafName := func(pth string) string {
+			n := T
+			name := ""
+			for _, part := range strings.Split(pth, ".") {
+				var i int
+				fmt.Sscan(part, &i)
+				st := n.Underlying().(*types.Struct)
+				name = st.Field(i).Name()
+				if e := embedded(st.Field(i).Type()); e != nil {
+					n = e
+				}
+			}
+			return name
+		}
+		// pathFrom: v is a chain of field addresses rooted at root; the path
+		// and the struct type reached
+		pathFrom := func(v ssa.Value, root ssa.Value) (string, bool) {
+			var parts []string
+			for {
+				if v == root {
+					break
+				}
+				fa, ok := v.(*ssa.FieldAddr)
+				if !ok {
+					return "", false
+				}
+				parts = append([]string{fmt.Sprint(fa.Field)}, parts...)
+				v = fa.X
+			}
+			return strings.Join(parts, "."), true
+		}
+		under := func(n *types.Named, pth string) []string {
+			// the leaves below pth (pth itself when it is a leaf), relative to n
+			cur := n
+			if pth != "" {
+				for _, part := range strings.Split(pth, ".") {
+					var i int
+					fmt.Sscan(part, &i)
+					st := cur.Underlying().(*types.Struct)
+					if i >= st.NumFields() {
+						return nil
+					}
+					e := embedded(st.Field(i).Type())
+					if e == nil || !st.Field(i).Embedded() {
+						return []string{pth}
+					}
+					cur = e
+				}
+				return leaves(cur, pth+".")
+			}
+			return leaves(cur, "")
+		}
+		recvNamed := func(f *ssa.Function) *types.Named {
+			t := f.Signature.Recv().Type()
+			if pt, ok := t.(*types.Pointer); ok {
+				t = pt.Elem()
+			}
+			n, _ := t.(*types.Named)
+			return n
+		}
+		// per method: leaf paths (relative to its receiver type) it reads directly,
+		// and the family methods it calls on (a part of) its receiver
+		type sub struct {
+			f      *ssa.Function
+			prefix string
+		}
+		direct := map[*ssa.Function]map[string]bool{}
+		callees := map[*ssa.Function][]sub{}
+		scan := func(fn *ssa.Function, root ssa.Value, rootT *types.Named) (map[string]bool, []sub, []ssa.Instruction) {
+			d := map[string]bool{}
+			var cs []sub
+			var sites []ssa.Instruction
 			for _, b := range fn.Blocks {
 				for _, in := range b.Instrs {
 					switch in := in.(type) {
 					case *ssa.FieldAddr:
-						if in.X != fn.Params[0] {
+						pth, ok := pathFrom(in, root)
+						if !ok {
 							continue
 						}
-						// a read unless every referrer is a Store to it
 						for _, rf := range *in.Referrers() {
 							if s, ok := rf.(*ssa.Store); ok && s.Addr == in {
 								continue
 							}
-							direct[fn][in.Field] = true
+							if _, ok := rf.(*ssa.FieldAddr); ok {
+								continue // a longer path: handled there
+							}
+							if call, ok := rf.(*ssa.Call); ok {
+								if sc := staticCallee(call); isRecv(sc) && len(call.Call.Args) > 0 && call.Call.Args[0] == ssa.Value(in) {
+									continue // receiver of a family method: handled as a call
+								}
+							}
+							for _, l := range under(rootT, pth) {
+								d[l] = true
+							}
+							sites = append(sites, in)
 						}
 					case *ssa.Call:
-						if sc := staticCallee(in); isRecv(sc) && len(in.Call.Args) > 0 && in.Call.Args[0] == fn.Params[0] {
-							callees[fn] = append(callees[fn], sc)
+						sc := staticCallee(in)
+						if !isRecv(sc) || len(in.Call.Args) == 0 {
+							continue
+						}
+						if pth, ok := pathFrom(in.Call.Args[0], root); ok {
+							cs = append(cs, sub{sc, pth})
+							sites = append(sites, in)
 						}
 					}
 				}
 			}
+			return d, cs, sites
 		}
-		var reads func(f *ssa.Function, seen map[*ssa.Function]bool) map[int]bool
-		reads = func(f *ssa.Function, seen map[*ssa.Function]bool) map[int]bool {
-			out := map[int]bool{}
+		for _, fn := range allFuncs(c.SLib) {
+			if !isRecv(fn) {
+				continue
+			}
+			direct[fn], callees[fn], _ = scan(fn, fn.Params[0], recvNamed(fn))
+		}
+		join := func(a, b string) string {
+			if a == "" {
+				return b
+			}
+			return a + "." + b
+		}
+		var reads func(f *ssa.Function, seen map[*ssa.Function]bool) map[string]bool
+		reads = func(f *ssa.Function, seen map[*ssa.Function]bool) map[string]bool {
+			out := map[string]bool{}
 			if seen[f] {
 				return out
 			}
@@ -305,28 +449,32 @@ func ruleParserReset(c *Ctx) *RuleResult {
 				out[k] = true
 			}
 			for _, g := range callees[f] {
-				for k := range reads(g, seen) {
-					out[k] = true
+				for k := range reads(g.f, seen) {
+					out[join(g.prefix, k)] = true
 				}
 			}
 			return out
 		}
 		recv := entry.Params[0]
-		for fi := 0; fi < st.NumFields(); fi++ {
-			fieldN := st.Field(fi).Name()
-			// first reader in entry: a call whose callee reads fi, or a direct read
-			var stores []*ssa.Store
-			for _, b := range entry.Blocks {
-				for _, in := range b.Instrs {
-					if s, ok := in.(*ssa.Store); ok {
-						if fa, ok := s.Addr.(*ssa.FieldAddr); ok && fa.X == recv && fa.Field == fi {
-							stores = append(stores, s)
+		// what entry stores, per leaf
+		stores := map[string][]*ssa.Store{}
+		for _, b := range entry.Blocks {
+			for _, in := range b.Instrs {
+				if s, ok := in.(*ssa.Store); ok {
+					if pth, ok := pathFrom(s.Addr, recv); ok {
+						for _, l := range under(recvNamed(entry), pth) {
+							stores[l] = append(stores[l], s)
 						}
 					}
 				}
 			}
+		}
+		entryDirect, entryCalls, _ := scan(entry, recv, recvNamed(entry))
+		_ = entryDirect
+		for _, leaf := range leaves(recvNamed(entry), "") {
+			fieldN := leafName(leaf)
 			storedBefore := func(in ssa.Instruction) bool {
-				for _, s := range stores {
+				for _, s := range stores[leaf] {
 					if s.Block() == in.Block() {
 						if instrIndex(s) < instrIndex(in) {
 							return true
@@ -344,31 +492,64 @@ func ruleParserReset(c *Ctx) *RuleResult {
 					switch in := in.(type) {
 					case *ssa.Call:
 						sc := staticCallee(in)
-						if isRecv(sc) && len(in.Call.Args) > 0 && in.Call.Args[0] == recv && reads(sc, map[*ssa.Function]bool{})[fi] {
+						if !isRecv(sc) || len(in.Call.Args) == 0 {
+							continue
+						}
+						pth, ok := pathFrom(in.Call.Args[0], recv)
+						if !ok {
+							continue
+						}
+						hit := false
+						for k := range reads(sc, map[*ssa.Function]bool{}) {
+							if join(pth, k) == leaf {
+								hit = true
+							}
+						}
+						if hit {
 							nread++
 							if !storedBefore(in) {
 								bad = "call of " + sc.Name() + " at " + c.pos(in.Pos())
 							}
 						}
 					case *ssa.FieldAddr:
-						if in.X == recv && in.Field == fi && direct[entry][fi] {
-							isRead := false
-							for _, rf := range *in.Referrers() {
-								if s, ok := rf.(*ssa.Store); ok && s.Addr == in {
+						pth, ok := pathFrom(in, recv)
+						if !ok {
+							continue
+						}
+						covers := false
+						for _, l := range under(recvNamed(entry), pth) {
+							if l == leaf {
+								covers = true
+							}
+						}
+						if !covers {
+							continue
+						}
+						isRead := false
+						for _, rf := range *in.Referrers() {
+							if s, ok := rf.(*ssa.Store); ok && s.Addr == in {
+								continue
+							}
+							if _, ok := rf.(*ssa.FieldAddr); ok {
+								continue
+							}
+							if call, ok := rf.(*ssa.Call); ok {
+								if sc := staticCallee(call); isRecv(sc) && len(call.Call.Args) > 0 && call.Call.Args[0] == ssa.Value(in) {
 									continue
 								}
-								isRead = true
 							}
-							if isRead {
-								nread++
-								if !storedBefore(in) {
-									bad = "read at " + c.pos(in.Pos())
-								}
+							isRead = true
+						}
+						if isRead {
+							nread++
+							if !storedBefore(in) {
+								bad = "read at " + c.pos(in.Pos())
 							}
 						}
 					}
 				}
 			}
+			_ = entryCalls
 			r.Instances++
 			key := label + "|" + fieldN
 			switch {
